@@ -2,6 +2,7 @@
 //! real code of nerdsane/redis-rust (path dependency on /repo, feature `verif-hooks`).
 mod ae;
 mod clock;
+mod conn;
 mod crdt;
 mod ks;
 mod place;
@@ -9,6 +10,8 @@ mod recov;
 mod repl;
 mod resp;
 mod shard;
+mod shard_plain;
+mod txn;
 mod stream;
 mod util;
 mod wal;
@@ -57,6 +60,7 @@ fn main() {
         "resp" => resp::main(rest),
         "ks" => ks::main(rest),
         "shard" => shard::main(rest),
+        "conn" => conn::main(rest),
         m => {
             eprintln!("unknown module {m}");
             2
